@@ -148,10 +148,10 @@ def main(tier, seed):
     cov['samples'] = [h for _t, h in cases[7:9]]
     spec_set = set(failing['spec'])
     for i in failing['spec']:
-        dec.report(dict(kind='malformed-command-set', **cases[i][1]))
+        dec.report(dict(cases[i][1], kind='malformed-command-set'))
     for i in failing['corr']:
         if i not in spec_set:
-            dec.report(dict(kind='model-differs', theorem='correspondence cmd_corr', **cases[i][1]), no_input=True)
+            dec.report(dict(cases[i][1], kind='model-differs', theorem='correspondence cmd_corr'), no_input=True)
     for name, out in broken:
         dec.report(dict(kind='case-file-broken', file=name, detail=out), no_input=True)
     run.keep = bool(dec.violations)
